@@ -525,7 +525,7 @@ func describe(h []porcupine.Operation) []string {
 }
 
 func TestC14(t *testing.T) {
-	quiet()
+	quietNamed()
 	defer simwork.CleanupScratch()
 	simnet.RunCheck(t, simnet.Check{ID: "C14", Gen: genC14, NewPlan: func() any { return &C14Plan{} }, Run: runC14})
 }
